@@ -173,6 +173,14 @@ pub fn remainder(item: &Item, tag: &str) -> Option<Item> {
             }
         }
         Item::Delivery { .. } => None,
+        Item::C16Progen { base, to, .. } => {
+            let i: u64 = parts.get(1)?.parse().ok()?;
+            if i + 1 < *to {
+                Some(Item::C16Progen { base: *base, from: i + 1, to: *to })
+            } else {
+                None
+            }
+        }
         Item::C16Enum { prog, kind, idx } => {
             let i: usize = parts.get(3)?.parse().ok()?;
             let pos = idx.iter().position(|x| *x == i)?;
